@@ -25,6 +25,14 @@ def schedOut (fwd : Bool) (pat : Pattern) (level : Array Nat) (nt : Nat) (upd : 
   let adv := [reverseThreadSchedule tk nl, roundRobinSchedule tk nl, threadOrderSchedule tk nl]
   if !(adv.all (isExec gsExpectedSkeleton tk nl)) then "model-inconsistent: adversarial schedule not in Exec" else
   let cf := conflictFree fwd pat level
+  -- tiny cases: EVERY execution the skeleton admits (all interleavings of every level) must give the serial result
+  let allExecs : List (List Nat) :=
+    if pat.size ≤ 4 then
+      (List.range nl).foldl (fun acc lev =>
+        acc.flatMap fun pre => (interleavings (pat.size + 1) (levelTasks tk lev)).map (pre ++ ·)) [[]]
+    else []
+  if cf && !(allExecs.all fun σ => isExec gsExpectedSkeleton tk nl σ && runRows upd σ x == serial) then
+    "model-inconsistent: an admitted execution differs from serial" else
   if cf && !(adv.all fun σ => runRows upd σ x == serial) then "model-inconsistent: conflict-free schedule differs from serial" else
   let out := if cf then serial else runRows upd (reverseThreadSchedule tk nl) x
   showTables nt tk ++ " x " ++ showVec out
